@@ -340,6 +340,7 @@ func mappingCfgs() []ref.BalCfg {
 }
 
 func c02Run(e *core.Env) {
+	e.ReserveTail()
 	drv := e.Driver()
 	var alpha []jr.Dir
 	var cfgs []ref.BalCfg
@@ -393,6 +394,7 @@ func c02Run(e *core.Env) {
 		}
 	})
 	e.SetBound("journal_depth", maxN)
+	e.BeginTail()
 	// the same around the end of a leap year (31 Dec 2020 is day 366; week, month, quarter
 	// and year change between two consecutive days)
 	ye := []string{"2020-12-31", "2021-01-01"}
@@ -454,7 +456,7 @@ func init() {
 	core.Register(&core.Check{
 		ID: "C02", Level: "model_checking", Run: c02Run, Replay: c02Replay,
 		Added:       "year-end plan (2020-12-31 / 2021-01-01); a --remap that also matches an equity account; a fixed journal spread over three files under every loader schedule within the deviation bound",
-		QuickBudget: 150 * time.Second, ThoroughBudget: 14 * time.Minute,
+		QuickBudget: 240 * time.Second, ThoroughBudget: 14 * time.Minute,
 		Rule: "every sequence of <= 2 body transactions over the journal alphabet (salary, food, rent with 8 decimals, liability in USD, negative transfer, 4-segment account, two-commodity trade, monthly accrual; thorough adds zero amounts, Unicode, income collision, @performance and all 7 dates) x " +
 			"{all --from/--to over the date alphabet x 6 intervals x --last 0/1/2 x --diff x --close} + {10 mapping rule sets x 5 account filters x 2 commodity filters x 3 remaps x 4 window configurations}; " +
 			"every report is parsed (tree from indentation) and every cell compared with the reference ledger; non-trivial = two body transactions",
